@@ -23,6 +23,14 @@ CORPUS = [
     {"nw": 2, "nx": 2, "steps": [{"name": "RY", "wires": [0], "params": [["sin", 0]]}, {"name": "CRX", "wires": [0, 1], "params": [["prod", 0, 1]]},
                                   {"name": "RY", "wires": [0], "params": [["sq", 0]]}],
      "meas": [{"k": "expval", "word": ["Y"], "wires": [1]}, {"k": "probs", "wires": [0]}]},
+    # mixed second derivatives INSIDE one multi-parameter gate (two shifts land on the same operation)
+    {"nw": 2, "nx": 4, "steps": [{"name": "RY", "wires": [0], "params": [["fix", 0.9272952180016122]]},
+                                  {"name": "Rot", "wires": [0], "params": [["lin", 0, 1, 0], ["lin", 1, 1, 0], ["lin", 2, 1, 0]]},
+                                  {"name": "CNOT", "wires": [0, 1], "params": []}, {"name": "RX", "wires": [1], "params": [["lin", 3, 1, 0]]}],
+     "meas": [{"k": "expval", "word": ["X", "Z"], "wires": [0, 1]}]},
+    {"nw": 2, "nx": 3, "steps": [{"name": "Hadamard", "wires": [1], "params": []}, {"name": "U3", "wires": [1], "params": [["lin", 0, 1, 0], ["lin", 1, 1, 0], ["fix", 0.7853981633974483]]},
+                                  {"name": "CRY", "wires": [1, 0], "params": [["lin", 2, 1, 0]]}],
+     "meas": [{"k": "expval", "word": ["Z"], "wires": [0]}, {"k": "expval", "word": ["Y"], "wires": [1]}]},
 ]
 
 
@@ -30,7 +38,7 @@ def run(ctx):
     from gradlib import GRAD_HEADER
     ctx.coq_props()
     quick = ctx.tier == "quick"
-    n_circ, n_proof = (7, 5) if quick else (50, 30)
+    n_circ, n_proof = (8, 6) if quick else (50, 30)
     A = ctx.run_impl("c37_impl.py", {"seed": ctx.seed, "n_circ": n_circ, "n_proof": n_proof, "corpus": CORPUS}, timeout=3000)
     obl = [(n, s, "vm_compute. reflexivity.") for n, s, ci in A["obligations"]]
     ci_of = {n: ci for n, s, ci in A["obligations"]}
